@@ -399,6 +399,7 @@ def line_sf(zone1, east1, north1, zone2, east2, north2,
     are entered)
     """
     # Re-project cross-zone coordinate to same UTM zone
+    lat2 = None
     if zone1 != zone2:
         # Re-project Station 2 Coordinates to same zone as Station 1
         stn2_geo = grid2geo(zone2, east2, north2, hemisphere, ellipsoid)
@@ -406,6 +407,9 @@ def line_sf(zone1, east1, north1, zone2, east2, north2,
         zone2 = stn2_zone1[1]
         east2 = stn2_zone1[2]
         north2 = stn2_zone1[3]
+        # latitude as converted in Station 2's own zone and hemisphere (a point on the
+        # equator is re-projected with the northern hemisphere's northing)
+        lat2 = stn2_geo[0]
 
     # Comute easting distances from Central Meridian
     eastofcm1 = east1 - projection.falseeast
@@ -413,7 +417,8 @@ def line_sf(zone1, east1, north1, zone2, east2, north2,
 
     # Compute Mean Latitude
     lat1 = grid2geo(zone1, east1, north1, hemisphere, ellipsoid)[0]
-    lat2 = grid2geo(zone2, east2, north2, hemisphere, ellipsoid)[0]
+    if lat2 is None:
+        lat2 = grid2geo(zone2, east2, north2, hemisphere, ellipsoid)[0]
     lat_mean = (lat1 + lat2) / 2
 
     # Compute Line Scale Factor (Deakin 2010 Eq. 13)
